@@ -160,6 +160,23 @@ impl Runner {
                 }
                 self.after(mode, None)
             }
+            ["onclr", s] => {
+                let Ok(s) = s.parse::<usize>() else { return "bad-op".into() };
+                if !c.set_onclr(s) {
+                    return "bad-op".into();
+                }
+                "ok".into()
+            }
+            ["setun", id, v] => {
+                let (Ok(id), Ok(v)) = (id.parse::<usize>(), v.parse::<i64>()) else { return "bad-op".into() };
+                self.written = Some(id);
+                if !self.case.as_mut().unwrap().setun(id, v) {
+                    return "bad-op".into();
+                }
+                let r = self.after(mode, None);
+                self.written = None;
+                r
+            }
             ["oncl"] => {
                 c.set_oncl();
                 "ok".into()
